@@ -24,7 +24,8 @@ From Coq Require Import Reals ZArith List Bool Lra Lia Sorted Permutation.
 From Flocq Require Import Core.Raux.
 From Romea Require Import Num NumR RansacModel IcpModel RansacProofs EstimateProofs RigidProofs IcpProofs RansacProbability.
 From Romea Require Import LinAlgBModel LinAlgBProofs LsModel LsProofs LsHistoryProofs P2pModel P2pProofs ZeroDispProofs.
-From Romea.gen Require Import RepoConstants.
+From Romea Require Import SrcTieC06.
+From Romea.gen Require Import RepoConstants SrcRansac.
 Import ListNotations.
 
 (* ------------------------------------------------------------------------------------------------ RansacIterations *)
@@ -421,6 +422,98 @@ Proof.
     apply Rmult_lt_0_compat; [apply IZR_lt; reflexivity | apply powerRZ_lt; lra].
   - vm_compute. discriminate.
 Qed.
+
+(* ------------------------------------------------------------------------------------------------ SOURCE TIE (syntactic) *)
+(* coq/gen/SrcRansac.v is regenerated on every run by translate/tr_C06_ransac.py from the clang AST of
+   RansacIterations.cpp, Ransac.cpp and FindRigidTransformationByICP.cpp; the theorems below say that the regenerated
+   terms ARE the models the theorems above talk about.  An edit of the C++ that changes the meaning makes them unprovable. *)
+
+(* RansacIterations — constructor, get, update — for EVERY numeric dictionary (by conversion: the same term is what the
+   binary64 instance executes).  The object is the tuple of its three members; the model keeps the iteration bound as the
+   integer the double holds ([iters_rep]).  update: same EPSILON clamps, same quotient, truncation (ntruncZ), std::min. *)
+Theorem C06_source_tie_iterations : forall (T : Type) (N : NumOps T) (s : iters T) (npoints : Z) (p : T) (maxit k sdraw : Z),
+  src_iters_init N npoints p maxit = iters_rep N (iters_init N npoints p maxit) /\
+  src_iters_get N (iters_rep N s) = nofZ N (iters_get s) /\
+  src_iters_update N (iters_rep N s) k sdraw =
+    (it_logopp s, it_oneovern s, nmin2 N (nofZ N (it_n s)) (nofZ N (ntruncZ N (iters_ratio N s k sdraw)))) /\
+  (int_order_embedding N -> src_iters_update N (iters_rep N s) k sdraw = iters_rep N (iters_update N s k sdraw)).
+Proof.
+  intros. split; [apply tie_iters_init|]. split; [apply tie_iters_get|]. split; [apply tie_iters_update_raw|].
+  intros H. now apply tie_iters_update.
+Qed.
+Print Assumptions C06_source_tie_iterations.
+
+(* the hypothesis of the last clause holds for the reals (and for binary64 on |integers| <= 2^53) *)
+Theorem C06_source_tie_iterations_R : forall (s : iters R) (k sdraw : Z),
+  int_order_embedding ROps /\
+  src_iters_update ROps (iters_rep ROps s) k sdraw = iters_rep ROps (iters_update ROps s k sdraw).
+Proof. intros. split; [exact int_order_embedding_R | apply tie_iters_update; exact int_order_embedding_R]. Qed.
+Print Assumptions C06_source_tie_iterations_R.
+
+(* Ransac::estimateModel — the regenerated program over an abstract RansacModel (every virtual call on ransacModel_ is an
+   argument; the model object is a state threaded through them) run with the source's own maximum as fuel returns exactly
+   what RansacModel.estimate returns: the boolean and the final model object.  Every dictionary whose integer -> scalar
+   conversion is order preserving (needed only for `iteration < ransacIterations.get()` and std::min). *)
+Theorem C06_source_tie_estimateModel : forall (T : Type) (N : NumOps T), int_order_embedding N ->
+  forall (S : Type) (draw : T -> S -> S * bool) (countInliers : T -> S -> S * Z) (refine : S -> S)
+         (getNumberOfPoints getNumberOfPointsToDrawModel getMinimalNumberOfInliers : S -> Z) (p sigma : T) (s : S),
+  src_estimateModel N draw countInliers refine getNumberOfPoints getNumberOfPointsToDrawModel getMinimalNumberOfInliers
+                    (Z.to_nat ransac_maxit) p sigma s =
+  match estimate N (draw sigma) (countInliers sigma) refine (getNumberOfPointsToDrawModel s)
+                 (getNumberOfPoints s) (getMinimalNumberOfInliers s) p ransac_maxit s with
+  | None => None
+  | Some r => Some (er_ok r, er_state r)
+  end.
+Proof. intros T N H S. exact (tie_estimateModel N H). Qed.
+Print Assumptions C06_source_tie_estimateModel.
+
+(* ... hence C06_estimate_logic holds of the regenerated program itself (reals): it terminates within the source's
+   maximum, returns true iff the largest count seen through the float variable exceeds the draw size, and the object it
+   leaves is refine(...) of the loop's object iff it returns true *)
+Theorem C06_source_estimateModel_logic : forall (S : Type) (draw : R -> S -> S * bool) (countInliers : R -> S -> S * Z)
+    (refine : S -> S) (gnp gsd gmi : S -> Z) (p sigma : R) (s : S),
+  (forall x, 0 <= snd (countInliers sigma x))%Z -> (gmi s <= gnp s)%Z ->
+  exists (ok : bool) (s_loop : S) (loop_calls : list rcall),
+    src_estimateModel ROps draw countInliers refine gnp gsd gmi (Z.to_nat ransac_maxit) p sigma s =
+      Some (ok, if ok then refine s_loop else s_loop) /\
+    (ok = true <-> (gsd s < max_rounded 0 (counts_of loop_calls))%Z) /\ (draws_of loop_calls <= ransac_maxit)%Z.
+Proof.
+  intros S draw cnt refine gnp gsd gmi p sigma s Hc Hm.
+  rewrite (tie_estimateModel ROps int_order_embedding_R).
+  destruct (C06_estimate_logic R ROps S (draw sigma) (cnt sigma) refine (gsd s) (gnp s) (gmi s) p ransac_maxit s Hc Hm)
+    as (r & calls & sl & E & _ & Hb & Hok & _ & Hst & Hit & Hle); [vm_compute; discriminate|].
+  rewrite E. exists (er_ok r), sl, calls. rewrite Hst. split; [reflexivity|]. rewrite <- Hb. split; [exact Hok | lia].
+Qed.
+Print Assumptions C06_source_estimateModel_logic.
+
+(* FindRigidTransformationByICP::find — the block run when ransac_.estimateModel() succeeded (difference with the
+   PREVIOUS estimate, best-estimate backup, break test, previous := current) is icp_step, for every dictionary; the
+   model's is_best names the iteration whose matrix bestRigidTransformation then holds.  Loop header and return
+   statement: n < max, n + 1, n != max. *)
+Theorem C06_source_tie_icp_exit : forall (T : Type) (N : NumOps T) (eps : T) (n : Z) (st : icp_state T) (o : icp_outcome T)
+    (bestM : list T) (maxit : Z),
+  (src_icp_block N (io_rmse o) (io_M o) eps (is_best_rmse st) bestM (is_prev st) =
+     (let st' := fst (icp_step N eps n st o) in
+      (is_best_rmse st', (if nltb N (io_rmse o) (is_best_rmse st) then io_M o else bestM), is_prev st'),
+      snd (icp_step N eps n st o)) /\
+   is_best (fst (icp_step N eps n st o)) = (if nltb N (io_rmse o) (is_best_rmse st) then Some n else is_best st)) /\
+  src_icp_continue maxit n = (n <? maxit)%Z /\ src_icp_next n = (n + 1)%Z /\ src_icp_return maxit n = negb (n =? maxit)%Z.
+Proof. intros. split; [apply tie_icp_block | apply tie_icp_header]. Qed.
+Print Assumptions C06_source_tie_icp_exit.
+
+(* the for loop assembled from those regenerated pieces (SrcTieC06.src_icp_loop: skip when RANSAC failed, else the block;
+   leave on break; the source's continuation test, increment and return expression) computes icp_run: same return value,
+   same loop counter, same rmse / previous matrix, and bestRigidTransformation is the matrix of iteration is_best *)
+Theorem C06_source_tie_icp_loop : forall (T : Type) (N : NumOps T) (eps : T) (maxit : Z) (identity : list T)
+    (os : list (icp_outcome T)), (0 <= maxit)%Z ->
+  match icp_run N eps maxit identity os with
+  | None => src_icp_loop N eps maxit (S (Z.to_nat maxit)) 0 (nmaxval N) identity identity os = None
+  | Some r =>
+    src_icp_loop N eps maxit (S (Z.to_nat maxit)) 0 (nmaxval N) identity identity os =
+    Some (ir_found r, ir_n r, (is_best_rmse (ir_state r), best_matrix identity os (is_best (ir_state r)), is_prev (ir_state r)))
+  end.
+Proof. intros T N. exact (tie_icp_run N). Qed.
+Print Assumptions C06_source_tie_icp_loop.
 
 (* obligations on the constants regenerated from the sources that the statements above rely on *)
 Example C06_constants :
